@@ -111,12 +111,14 @@ def is_len_of(node, name):
 
 def countup_of_while(loop):
     """`while limit > received` / `while received < limit` (two plain names): (limit, received), else None"""
-    cp = compare_parts(loop.test)
-    if cp and isinstance(cp[0], ast.Name) and isinstance(cp[2], ast.Name):
-        if cp[1] is ast.Gt:
-            return cp[0].id, cp[2].id
-        if cp[1] is ast.Lt:
-            return cp[2].id, cp[0].id
+    from .astutil import bool_operands
+    for t in bool_operands(loop.test, ast.And):
+        cp = compare_parts(t)
+        if cp and isinstance(cp[0], ast.Name) and isinstance(cp[2], ast.Name):
+            if cp[1] is ast.Gt:
+                return cp[0].id, cp[2].id
+            if cp[1] is ast.Lt:
+                return cp[2].id, cp[0].id
     return None
 
 
